@@ -287,9 +287,7 @@ func RunC08(tier string) int {
 		}
 		env.M.Root = rootA
 		_ = memoA
-		if i < 2 {
-			run.Sample(map[string]any{"scenario": kind, "history": env.Log, "requests": tailReq(fs3)})
-		}
+		run.Sample(map[string]any{"scenario": kind, "history": env.Log, "requests": tailReq(fs3)})
 	})
 	run.Assume("machine B = same workspace path (the remote namespace is derived from it), separate GROG_ROOT; the fake store speaks path-style S3 over plain HTTP on loopback; GCS and real S3 consistency behaviour are not covered")
 	return run.Finish()
